@@ -11,7 +11,8 @@ PROPERTY = "C14"
 LEVEL = "exploration"
 RULE = (
     "Hypothesis instances inside the enumeration bound (<= 4 offered tasks, <= 2 workers, <= 2 strategies, horizon <= 12 slots, "
-    "discretisation 1-3, occupancy by running tasks, task-by-task mode and whole-graph chains); the harness enumerates the planner's "
+    "discretisation 1-3, occupancy by running tasks (also partially executed parents of offered tasks), earlier plans that may be "
+    "retracted (ILP retract_schedules), task-by-task mode and whole-graph chains); the harness enumerates the planner's "
     "documented decision space by DFS (ILP: integer starts >= max(now+1, release), closed-interval occupancy, +1 precedence, deadline; "
     "TetriSched: slot-grid starts, half-open occupancy sampled on the grid, deadline cells) and compares: ILP rewarded graphs == "
     "brute-force maximum; TetriSched: no unplaced offered task (with its unplaced ancestors) can be added. Non-trivial = an instance "
